@@ -43,6 +43,7 @@ fn main() {
     let rest = &args[2..];
     let rc = match args[1].as_str() {
         "frag-edges" => frag::run_edges(rest),
+        "frag-paths" => frag::run_paths(rest),
         "etf-obs" => etf::run_obs(rest),
         "etf-random" => etf::run_random(rest),
         "etf-raw" => etf::run_raw(rest),
